@@ -365,6 +365,16 @@ class TTuple(Sort):
         return z3.BoolVal(len(self.elems) > 0)
 
 
+class TExcC(Sort):
+    """pseudo-sort of exception objects passed as parameters (identity only)"""
+
+    name = "Exc"
+
+    def leaves(self):
+        return []
+
+
+TExc = TExcC()
 TInt = TIntC()
 TBool = TBoolC()
 TReal = TRealC()
